@@ -64,3 +64,44 @@ def walk_specs(x, fn):
     elif isinstance(x, list):
         for v in x:
             walk_specs(v, fn)
+
+
+# ---------------------------------------------------------------------------------------------------------
+# KF-C07-1 (D22): PROV-O reader folds an unqualified association/delegation into an anonymous *qualified* one of the same
+# subject (it treats the binary triple as the shorthand of the qualified pattern), so one of the two relations is lost and,
+# when their agents differ, the qualified relation's agent is overwritten.
+# ---------------------------------------------------------------------------------------------------------
+def _kf_c07_groups(case):
+    groups = {}
+    for op in case.get("ops", []):
+        if op[0] == "rec" and op[2] in ("Association", "Delegation") and op[3] is None:
+            formals = {"Association": ["activity", "agent", "plan"], "Delegation": ["delegate", "responsible", "activity"]}[op[2]]
+            subj = op[4].get(formals[0])
+            if subj is None:
+                continue
+            qualified = bool(op[5]) or any(f in op[4] for f in formals[2:])
+            groups.setdefault((op[1], op[2], repr(sorted(subj.items()))), []).append((op, qualified, formals[0]))
+    return {k: v for k, v in groups.items() if len(v) > 1 and any(q for _o, q, _f in v)}
+
+
+@finding("KF-C07-1", ["C07"])
+class _KF_C07_1:
+    @staticmethod
+    def trigger(case):
+        return bool(_kf_c07_groups(case))
+
+    @staticmethod
+    def neutralise(case):
+        n = 0
+        for _k, members in _kf_c07_groups(case).items():
+            for op, qualified, f0 in members:
+                if not qualified:
+                    n += 1
+                    spec = dict(op[4][f0])
+                    if "s" in spec:
+                        spec["s"] = spec["s"] + "_kf%d" % n
+                    else:
+                        spec["local"] = spec.get("local", "x") + "_kf%d" % n
+                    op[4][f0] = spec
+            # several qualified ones with one subject and no unqualified one do not trigger the defect
+        return case if n else None
